@@ -23,6 +23,7 @@ from __future__ import annotations
 
 import itertools
 import math
+import re
 
 from opsim import seams
 from opsim.core import CLOCK, derive, HarnessError
@@ -98,6 +99,9 @@ ASSUMPTIONS = [
     "CascadeStage.timeout_seconds is set on some stages and some processors let virtual time pass beyond it; unchanged "
     "code ignores the field, and the oracle has no notion of it: a stage whose processor returned normally but which the "
     "report calls FAILED is judged by the report (halting after it, its factor not counted)",
+    "a stage whose checkpoint field holds a truthy object that is not callable 'has a checkpoint' that can never return "
+    "true (asking it raises): its processor must never run, in either mode; falsy placeholders (0, '', ()) are not "
+    "generated (the statement does not say whether they count as a checkpoint)",
     "threads family: every clause is per run() call (run() keeps all per-run state in locals; the statistics counters "
     "on the object are not judged); pre-emption granularity is the source line",
 ]
@@ -109,7 +113,8 @@ EXPECT_PROBES = ("gate_raise_nonhalt", "gate_reject_nonhalt", "gate_falsy", "hal
                  "threads_preempted_inside_run", "shared_gate_rejected", "stage_handed_on_the_same_object",
                  "observer_edited_its_record", "attenuation_after_clamp", "mode_PARALLEL", "mode_CONDITIONAL",
                  "mode_AMPLIFYING", "unity_stage_first_under_a_limiter", "agents_run", "agent_gate_blocked_falsy_input",
-                 "agent_expressed", "agent_input_is_a_Signal", "zero_factor_completed", "stage_stalled_past_its_timeout")
+                 "agent_expressed", "agent_input_is_a_Signal", "zero_factor_completed", "stage_stalled_past_its_timeout", "noncallable_checkpoint_failed_closed",
+                 "agent_noncallable_checkpoint_failed_closed")
 
 MAPK_INPUTS = {
     "str": "hello", "none": None, "int": 7,
@@ -174,7 +179,9 @@ def _sampled_stage(rng, faulty):
     st = {"gate": rng.choice(["absent", "pass"]), "proc": "ok", "handler": rng.choice(HANDLERS),
           "required": rng.random() < 0.6, "amp": rng.choice(AMPS)}
     if kind in ("gate", "both"):
-        st["gate"] = weighted(rng, [(2, "reject"), (2, "falsy"), (3, "raise")])
+        st["gate"] = weighted(rng, [(2, "reject"), (2, "falsy"), (3, "raise"), (1.5, "noncallable")])
+        if st["gate"] == "noncallable":
+            st["gate_obj"] = rng.choice(NONCALLABLES)
     if kind in ("proc", "both"):
         st["proc"] = "raise"
     return st
@@ -256,7 +263,10 @@ def _agents_plan(rng, halt, max_amp, mode):
     """AgentCascade: the library's own way of putting agents behind gates."""
     n = rng.choice([1, 2, 2, 3])
     ops = [{"gate": weighted(rng, [(1, "absent"), (2, "pass"), (1, "reject"), (1, "raise"), (3, "notnone"), (3, "truthy"),
-                                   (2, "isstr")]), "amp": rng.choice(AMPS)} for _ in range(n)]
+                                   (2, "isstr"), (1.5, "noncallable")]), "amp": rng.choice(AMPS)} for _ in range(n)]
+    for st in ops:
+        if st["gate"] == "noncallable":
+            st["gate_obj"] = rng.choice(NONCALLABLES)
     return {"config": {"halt": halt, "max_amp": max_amp, "family": "agents", "mode": mode,
                        "input": rng.choice(AGENT_INPUTS)}, "ops": ops}
 
@@ -329,6 +339,8 @@ def gen(rng, tier, i):
             st = _stage(rng.randrange(NB), rng.choice(AMPS))
             if st["gate"] == "reject" and rng.random() < 0.4:
                 st["gate"] = "falsy"
+            elif st["gate"] == "raise" and rng.random() < 0.25:
+                st["gate"], st["gate_obj"] = "noncallable", rng.choice(NONCALLABLES)
             ops.append(st)
     _decorate(rng, ops)
     _limits(rng, ops)
@@ -362,7 +374,7 @@ def simplify(plan):
         if cfg["tiers"] != [1.0, 1.0, 1.0]:
             yield {**plan, "config": {**cfg, "tiers": [1.0, 1.0, 1.0]}}
     for j, st in enumerate(plan["ops"]):
-        for key in ("name", "out", "rec", "stall", "timeout"):
+        for key in ("name", "out", "rec", "stall", "timeout", "gate_obj"):
             if key in st:
                 ops = [dict(o) for o in plan["ops"]]
                 del ops[j][key]
@@ -385,6 +397,15 @@ def simplify(plan):
 
 
 # --------------------------------------------------------------------------- the fakes
+def _noncallable(kind):
+    """A truthy object that is NOT callable, put where a checkpoint belongs: asking it raises, it can never say true."""
+    return {"regex": re.compile(r"^\d+$"), "true": True, "tuple": ("len", "<=", 2), "str": "is_valid", "dict": {"min": 1},
+            "int": 1}[kind or "true"]
+
+
+NONCALLABLES = ("regex", "true", "tuple", "str", "dict", "int")
+
+
 def _val(kind, token):
     return {"token": token, "none": None, "zero": 0, "estr": "", "elist": []}[kind or "token"]
 
@@ -523,7 +544,8 @@ class _Fakes:
 def _fake_stage(w, idx, st, pos):
     f = _Fakes(w, idx, st, pos)
     return CascadeStage(name=st.get("name", f"s{idx}"), processor=f.proc, amplification=st["amp"],
-                        checkpoint=None if st["gate"] == "absent" else w.shared_gate if st["gate"] == "shared" else f.gate,
+                        checkpoint=(None if st["gate"] == "absent" else w.shared_gate if st["gate"] == "shared" else
+                                    _noncallable(st.get("gate_obj")) if st["gate"] == "noncallable" else f.gate),
                         on_error=None if st["handler"] == "absent" else f.handler,
                         required=st["required"], **({"timeout_seconds": st["timeout"]} if "timeout" in st else {}))
 
@@ -763,6 +785,14 @@ def _judge(w, tag, signal0, out):
             else:
                 fate[d_i], why[d_i] = "failed", ("gate=raise" if verdict == "raise" else "proc=raise")
 
+    # a checkpoint that is not callable leaves no call log: its stage is blocked as soon as the report shows it was reached
+    for d_i, d in enumerate(desc):
+        if d["fake"] is not None and d["st"]["gate"] == "noncallable" and per[d_i]:
+            touched[d_i] = True
+            if fate[d_i] == "not_reached" and _status(per[d_i][-1]) != "COMPLETED":
+                fate[d_i], why[d_i] = "blocked", "gate=noncallable"
+                k.fault("collab_raise")
+                k.probe("noncallable_checkpoint_failed_closed")
     # a stage whose processor returned normally but which the report calls FAILED / SKIPPED (nothing in unchanged code
     # does that) is judged by the report: halting must hold after it and its factor must not count
     for d_i, d in enumerate(desc):
@@ -988,7 +1018,8 @@ def _run_agents(plan, k):
     try:
         for j, st in enumerate(plan["ops"]):
             c.add_agent_stage(f"a{j}", role="Processor", amplification=st["amp"],
-                              checkpoint=None if st["gate"] == "absent" else make_gate(j, st["gate"]))
+                              checkpoint=(None if st["gate"] == "absent" else _noncallable(st.get("gate_obj"))
+                                          if st["gate"] == "noncallable" else make_gate(j, st["gate"])))
     finally:
         cascade_mod.BioAgent = real
     n = len(plan["ops"])
@@ -1020,6 +1051,10 @@ def _run_agents(plan, k):
             fate[j], why[j] = "blocked", f"gate={gates[-1][1][3]}"
         elif runs:
             fate[j] = "completed"
+        elif st["gate"] == "noncallable" and res is not None and any(
+                sr.stage_name == f"a{j}" and _status(sr) != "COMPLETED" for sr in res.stage_results):
+            fate[j], why[j] = "blocked", "gate=noncallable"
+            k.probe("agent_noncallable_checkpoint_failed_closed")
         for q, e in runs:
             if st["gate"] == "absent":
                 continue
